@@ -107,6 +107,50 @@ def rule_guard_and_index(rep, tname):
     rep.ob("R-C11-count", "%s/returned" % tname, "mask" not in txt and "active" not in txt, "returned counts `%s` must not depend on the mask" % txt[:80], loc(fn))
 
 
+def rule_mask_uses(rep, tname):
+    """The mask may steer *which channels* are touched, nothing else: every mention of self.channel_mask / the mask argument in
+    process_into_buffer must be (a) the prologue that copies / checks the caller's mask, (b) the validate_buffers argument, or
+    (c) the iterator / filter of a recognised channel loop.  Any other use (an early return when all channels are masked, a count of
+    active channels, ...) makes frame bookkeeping depend on the mask."""
+    facts = rep.ctx.facts
+    fn = facts.need_method(tname, "process_into_buffer", "Resampler")
+    maskp = [p["name"] for p in fn["params"]][2]
+    R = "R-C11-count"
+    uses = locate(fn["body"], lambda x: is_self_field(x, "channel_mask") or is_path(x, maskp))
+    n_ok = 0
+    for node, chain, ctrl in uses:
+        ok = False
+        top_blk, top_idx = chain[0]
+        top = top_blk["stmts"][top_idx]
+        e = top.get("e") if top["k"] in ("semi", "expr") else None
+        # (a) prologue: `if let Some(mask) = <maskp> { [len check]; self.channel_mask.copy_from_slice(mask) } else { update_mask_from_buffers(&mut self.channel_mask) }`
+        if e is not None and e.get("k") == "if" and e["c"].get("k") == "letcond" and is_path(e["c"]["e"], maskp):
+            ok = True
+        # (b) validate_buffers argument
+        if e is not None and e.get("k") == "try" and e["e"].get("k") == "call" and is_path(e["e"]["f"]) and e["e"]["f"]["p"].split("::")[-1] == "validate_buffers":
+            ok = True
+        # trace!/debug! macros are compiled out (log feature off)
+        if e is not None and e.get("k") == "macro" and e["name"] in ir.NOOP_MACROS:
+            ok = True
+        # (c) channel loop iterator or its filter closure
+        for c in [x for x in ctrl if x.get("k") == "for"]:
+            pass
+        for blk, idx in chain:
+            st = blk["stmts"][idx]
+            se = st.get("e") if st["k"] in ("semi", "expr") else None
+            if se is not None and se.get("k") == "for":
+                g = mask_guard_of_loop(se)
+                if g["guard"] is not None and any(y is node for y in walk(se["iter"])):
+                    ok = True
+        if ok:
+            n_ok += 1
+        else:
+            rep.ob(R, "%s/mask-use-line%s" % (tname, node.get("ln")), False,
+                   "the mask is consulted outside the per-channel guard (`%s`): control flow or bookkeeping that depends on the mask as a whole changes frame counts / carried state relative to an unmasked stream"
+                   % show(top)[:90], loc(fn, node))
+    rep.ob(R, "%s/mask-uses" % tname, n_ok > 0, "%d uses of the mask, all in the prologue, the validate_buffers call or a channel-loop header" % n_ok, loc(fn))
+
+
 def rule_validate(rep):
     facts = rep.ctx.facts
     R = "R-C11-guard"
@@ -166,12 +210,13 @@ def run(rep):
     check_type_table(rep, "R-C11-guard")
     for t in RESAMPLERS:
         rep.guarded("R-C11-guard", lambda r, t=t: rule_guard_and_index(r, t))
+        rep.guarded("R-C11-count", lambda r, t=t: rule_mask_uses(r, t))
     rep.guarded("R-C11-guard", rule_validate)
     rep.guarded("R-C11-scratch", lambda r: fftunit.rule_scratch(r, "R-C11-scratch"))
     rep.guarded("R-C11-scratch", rule_points)
     rep.floor("R-C11-guard", 50)
     rep.floor("R-C11-index", 70)
-    rep.floor("R-C11-count", 7)
+    rep.floor("R-C11-count", 14)
     rep.floor("R-C11-scratch", 7 + 6)
     rep.clause("R-C11-guard", "every access to wave_in / wave_out in the seven process_into_buffer bodies and in validate_buffers is under the mask bit of the same channel (or is the length of the outer slice)")
     rep.clause("R-C11-index", "inside a channel loop every per-channel container (buffer, overlaps, input/output_buffers, wave_in, wave_out) is indexed by that loop's channel variable only")
